@@ -598,6 +598,34 @@ def gen_case(seed, i, tier):
     pick("dh-heights", 0.6, dim == 3)
     net = netgen.gen_net(rng, dim=dim, noise=False, features=tuple(feats))
     ids = list(net.points)
+    P0 = net.points
+    # ---- more structure than netgen draws by itself
+    if pick("mixed-status", 0.3, dim == 3):          # fix="xy" adj="z" and the like on one point
+        fx = [q for q in P0.values() if q.xy == "fixed" and q.z == "fixed"]
+        fr_ = [q for q in P0.values() if q.xy == "free" and q.z == "free"]
+        if len(fx) >= 2 and rng.uniform() < 0.5:
+            fx[-1].z = "free"
+        elif len(fx) >= 3:
+            fx[-1].xy = "free"
+        elif fr_:
+            fr_[0].z = "constrained" if any(q.z == "constrained" for q in P0.values()) else "free"
+    if pick("stationless-obs", 0.25, dim >= 2):      # <obs> without from=: every observation names its station
+        cl = netgen.Cluster("obs", None)
+        for _ in range(int(rng.integers(2, 5))):
+            a_, b_ = [str(x) for x in rng.choice(ids, 2, replace=False)]
+            cl.obs.append(netgen.Obs("distance", a_, b_, stdev=float(rng.choice([2.0, 5.0]))))
+        if len(ids) >= 3:
+            a_, b_, c_ = [str(x) for x in rng.choice(ids, 3, replace=False)]
+            cl.obs.append(netgen.Obs("angle", a_, bs=b_, fs=c_, stdev=12.0))
+        net.clusters.append(cl)
+    if pick("z-only-coords", 0.3, dim == 3):         # observed height only, in a <coordinates> of its own
+        cand = [q for q in P0.values() if q.z in ("free", "constrained")]
+        if cand:
+            q = cand[int(rng.integers(len(cand)))]
+            cl = netgen.Cluster("coords")
+            cl.cpoints.append([q.id, None, None, q.H])
+            cl.cov = dict(band=0, C=np.array([[36.0]]))
+            net.clusters.append(cl)
     # ---- attributes the export has to carry
     if pick("all-heights", 0.3, dim >= 2):         # heights on observations that do not depend on them
         for cl, o in net.all_obs():
@@ -1027,16 +1055,16 @@ def check_chain(ck, case, res, seed, tier):
         # ---------------- (c) same adjustment, no iterations
         if g1.xml is None or g1.xml.get("kind") != "adjustment":
             continue
+        if math_diff:
+            # the exported file describes a different mathematical model (reported above under its own key):
+            # the relation between the two adjustments is not evaluated
+            ck.count("adjustment comparisons skipped because the exported model differs")
+            continue
         rm1 = sorted((e["type"], e["from"], e["to"]) for e in g1.trace if e.get("kind") == "rm_obs_abs_term")
         if rm1 != sorted((e["type"], e["from"], e["to"]) for e in rm_obs):
             # gama excludes observations by their absolute terms, which depend on the approximate coordinates; the
             # export (rightly) still describes them, and with updated coordinates the decision may change
             ck.inconc("round %d: observations excluded for gross absolute terms differ from the previous round" % (k + 1))
-            continue
-        if math_diff:
-            # the exported file describes a different mathematical model (reported above under its own key):
-            # the relation between the two adjustments is not evaluated
-            ck.count("adjustment comparisons skipped because the exported model differs")
             continue
         A = netlevel.physical_result(R, fr)
         B = netlevel.physical_result(g1.xml, fr)
